@@ -175,3 +175,15 @@ package brontide
 //@   site call WriteMessage nth 1 as bound: assert 0 <= bytesWritten && bytesWritten <= len(b) ==> bytesWritten + chunkSize <= len(b)
 //@   site call WriteMessage nth 1 as size: assert 0 <= bytesWritten && bytesWritten <= len(b) ==> chunkSize <= 65535
 //@   site call Flush nth 1: assert ret(WriteMessage, 1) == nil
+//@   // bytes already put on the wire by a failed Flush are reported (the caller resumes from the returned count)
+//@   site return nonnil nth 3: assert result0 == swrap(prev(bytesWritten) + retn(Flush, 0, 1), 64)
+//@   site return nonnil nth 2: assert result0 == prev(bytesWritten)
+//@   site return nonnil nth 0: assert result0 == 0
+//@   loop 0 step bytesWritten == swrap(prev(bytesWritten) + retn(Flush, 0, 1), 64)
+//@
+//@ // ---- a pooled buffer is handed back at most once: the machine forgets it when it returns it
+//@ func (b *Machine) releaseBuffers
+//@   props C11
+//@   ensures b.pooledHeaderBuf == nil && b.pooledBodyBuf == nil && len(b.nextHeaderSend) == 0 && len(b.nextBodySend) == 0
+//@   site call Put nth 0: assert arg(1) == old(b.pooledHeaderBuf) && old(b.pooledHeaderBuf) != nil
+//@   site call Put nth 1: assert arg(1) == old(b.pooledBodyBuf) && old(b.pooledBodyBuf) != nil
